@@ -57,6 +57,16 @@ def run(ctx):
             try: e['out'] = B(o2(M))
             except Exception as ex: e['raised'] = type(ex).__name__
             traces.append(dict(alg=H.ALGS[name], name=name, ev=[dict(op='setkey', key=B(b'zero-edge key'), raised=''), e], klens=[13])); ctx.mark((name, 'zero-edge'))
+    # long messages (page-sized pieces: exact multiples of 4096 and one byte more)
+    for name in (('md5', 'sha1', 'sha256', 'sha512', 'blake256') if big else ('md5', 'sha1')):
+        K = bytes(rnd.randrange(256) for _ in range(16)); obj = HMAC(H.make(name), K); ev = [dict(op='setkey', key=B(K), raised='')]
+        for ml in ((4096, 8192, 4097, 12288) if big else (4096, 8192, 4097)):
+            M = bytes(rnd.randrange(256) for _ in range(ml)); e = dict(op='mac', m=B(M), raised='', out=[])
+            try:
+                r = obj(M); e['out'] = B(r) if isinstance(r, (bytes, bytearray)) else []
+            except Exception as ex: e['raised'] = type(ex).__name__
+            ev.append(e)
+        traces.append(dict(alg=H.ALGS[name], name=name, ev=ev, klens=[16])); ctx.mark((name, 'long messages'))
     ctx.sample(dict(alg=traces[0]['name'], keylens=traces[0]['klens'], events=traces[0]['ev'][:3]))
     ctx.exhaustive_subspaces.append('key-length classes {0,1,dg-1,dg,dg+1,B-1,B,B+1,2B,3B} x 14 hashes; key replacement sequences K1,K2,K1')
     payload = [dict(alg=t['alg'], ev=t['ev']) for t in traces]
@@ -69,7 +79,7 @@ def run(ctx):
             lastkey = [x for x in t['ev'][:rec['step']] if x['op'] == 'setkey'][-1]
             Bb = H.blockbytes(t['name'])
             for cl in rec['bad']:
-                attrs = dict(alg=t['name'], op=e['op'], clause=cl['c'], raised=e['raised'], key_longer_than_block=len(lastkey['key']) > Bb,
+                attrs = dict(alg=t['name'], op=e['op'], clause=cl['c'], raised=e['raised'], key_longer_than_block=len(lastkey['key']) > Bb, long_message=len(e.get('m', [])) >= 4096,
                              nth_key=sum(1 for x in t['ev'][:rec['step']] if x['op'] == 'setkey'))
                 sym = ('raises:' + e['raised']) if cl['c'] == 'must-not-raise' else 'wrong:' + cl['c']
                 ctx.violation('HMAC.' + e['op'], sym, attrs, dict(alg=t['name'], keylens=t['klens'], event=e, step=rec['step'], expected=cl['e']))
